@@ -119,8 +119,20 @@ def run_history(chk, uni, drv, rng, stats):
             if uni.gen is None:
                 uni.gen = uni.mod.hgen(10 ** 6)
                 next(uni.gen)
-            how = rng.choice(["next", "next", "close", "drop"])
-            if how == "next":
+            how = rng.choice(["next", "next", "close", "drop", "short", "short"])
+            if how == "short":
+                # a short generator: started now, or — if one is waiting — run to its end now
+                short = getattr(uni, "shortgen", None)
+                if short is None:
+                    uni.shortgen = uni.mod.hgen(2)
+                    next(uni.shortgen)
+                    how = "short generator started"
+                else:
+                    for _ in short:
+                        pass
+                    uni.shortgen = None
+                    how = "short generator run to its end"
+            elif how == "next":
                 next(uni.gen)
             elif how == "close":
                 # … or closed / dropped while suspended: whoever does that keeps its context
